@@ -326,6 +326,90 @@ def copies(rep):
                 replay=dict(reproduced=True, detail=p.stdout.strip()[-400:]), replay_script=f"import subprocess\nenv = dict(os.environ); env['PYTHONPATH'] = {REPO!r}\np = subprocess.run([sys.executable, '-c', {COPY_SRC!r}], env=env, cwd='/')\nsys.exit(p.returncode)\n")
     rep.bounded.append(dict(kind='copy / deepcopy / pickle of configurations, then read-back of BeartypeConf() and BeartypeConf(**kw) (bounded stand-in, NOT counted as proved)', scenarios=15, failing=int(p.returncode == 1)))
 
+def frozendict_contract(rep):
+    """the memo key of a configuration contains the hint_overrides FrozenDict: the ghost-map proof of __new__ ASSUMES that ==-equal option values
+    hash alike.  For FrozenDict that is a contract on real code: dict.__eq__ (inherited, trusted) compares the item SETS regardless of insertion
+    order, so the hash stored by FrozenDict.__init__ must be a function of the item set.  Relational obligation over two runs of the real
+    __init__: same item set => same stored hash (and the same hashable/unhashable verdict)."""
+    from pyvc import funcmode, model as M, discharge
+    from pyvc.symx import Exec, St, VObj, VPy, VExc, VInt
+    import inspect
+    fobj, node, mod = funcmode.load('beartype/_util/kind/maplike/utilmapfrozen.py', 'FrozenDict.__init__')
+    FD = mod.FrozenDict
+    rep.add('C17.frozendict.eq_is_dict_eq', 'proved' if ('__eq__' not in vars(FD) and '__ne__' not in vars(FD) and FD.__eq__ is dict.__eq__) else 'refuted', backend='structural',
+            where='FrozenDict inherits dict.__eq__ (order-insensitive comparison of the item sets): the contract below is stated against it')
+    uni = M.Universe(); uni.const(TypeError); NONE = uni.const(None)
+    ITEMS = z3.Function('items_view', M.Obj, M.Obj); VALUES = z3.Function('values_view', M.Obj, M.Obj); KEYS = z3.Function('keys_view', M.Obj, M.Obj)
+    FS = z3.Function('frozenset_of', M.Obj, M.Obj); SETOF = z3.Function('set_of', M.Obj, M.Obj); TUP = z3.Function('tuple_of', M.Obj, M.Obj); LST = z3.Function('list_of', M.Obj, M.Obj); SORTED = z3.Function('sorted_of', M.Obj, M.Obj)
+    SAME = z3.Function('same_elements_as_sets', M.Obj, M.Obj, z3.BoolSort())
+    HASHF = z3.Function('hash_of_class', M.eqc(NONE).sort(), z3.IntSort())
+    x, y = z3.Consts('fx fy', M.Obj)
+    axioms = uni.axioms() + [
+        z3.ForAll([x, y], z3.Implies(SAME(x, y), z3.And(M.eqc(FS(x)) == M.eqc(FS(y)), M.hashable(FS(x)) == M.hashable(FS(y))))),      # frozenset equality is extensional; nothing of the kind holds for tuple(x) / list(x)
+        z3.ForAll([x, y], z3.Implies(SAME(x, y), M.eqc(SETOF(x)) == M.eqc(SETOF(y))))]
+    def unary(fn): return lambda ex, s, f, a, kw, w: [(s, VObj(fn(ex.obj(a[0]))))]
+    def meth(fn): return lambda ex, s, f, a, kw, w: [(s, VObj(fn(ex.obj(f.self_))))]
+    def m_hash(ex, s, f, a, kw, w):
+        t = ex.obj(a[0]); outs = []
+        for s2, ok in ex.fork(s, M.hashable(t)):
+            if ok: outs.append((s2, VInt(HASHF(M.eqc(t)))))
+            else: ex.raised.append((s2, VExc(TypeError, ())))
+        return outs
+    def m_noop(ex, s, f, a, kw, w): return [(s, VPy(None))]
+    cm = {'super.__init__': m_noop, '.items': meth(ITEMS), '.values': meth(VALUES), '.keys': meth(KEYS), frozenset: unary(FS), set: unary(SETOF), tuple: unary(TUP), list: unary(LST), sorted: unary(SORTED), hash: m_hash}
+    S1, S2 = z3.Consts('fd1 fd2', M.Obj)
+    ex = Exec(uni, dict(mod.__dict__), call_model=cm, name='FrozenDict.__init__'); ex.fields_mode = True; ex.method_names = {'items', 'values', 'keys', '__init__'}
+    outs1 = ex.run_function(node, St(), (VObj(S1),), {}, fobj)
+    pr = discharge.Prover(axioms); n = 0
+    for i, (s1, _) in enumerate(outs1):
+        for j, (s2, _) in enumerate(ex.run_function(node, s1.with_env(()), (VObj(S2),), {}, fobj)):
+            H = ex.field(s2, '_hash')
+            h1, h2 = z3.Select(H, S1), z3.Select(H, S2)
+            r0 = pr.prove(list(s2.pc) + [S1 != S2, SAME(ITEMS(S1), ITEMS(S2))], z3.BoolVal(False))
+            if r0.status == 'proved': continue       # infeasible combination (one hashable, the other not)
+            n += 1
+            r = pr.prove(list(s2.pc) + [S1 != S2, SAME(ITEMS(S1), ITEMS(S2))], h1 == h2)
+            rep.add(f'C17.frozendict.init.post.equal_dicts_hash_alike.path{i}_{j}', r.status, time=r.time, backend=r.backend, reason=r.reason,
+                    where='two frozen dictionaries with the same item set (== by dict.__eq__, whatever the insertion order) store the same hash',
+                    **({} if r.status != 'refuted' else _frozendict_replay()))
+    if not n: rep.error('C17.frozendict: no feasible pair of paths (vacuous)')
+    # __hash__ returns the stored hash when there is one
+    fobj, node, _ = funcmode.load('beartype/_util/kind/maplike/utilmapfrozen.py', 'FrozenDict.__hash__')
+    ex = Exec(uni, dict(mod.__dict__), call_model=cm, name='FrozenDict.__hash__'); ex.fields_mode = True; ex.method_names = {'items', 'values', 'keys'}
+    try:
+        outs = ex.run_function(node, St((), (z3.Select(z3.Const('H__hash', z3.ArraySort(M.Obj, M.Obj)), S1) != NONE,)), (VObj(S1),), {}, fobj)
+        for i, (s_, v) in enumerate(outs):
+            r = pr.prove(list(s_.pc), ex.obj(v) == z3.Select(ex.field(s_, '_hash'), S1))
+            rep.add(f'C17.frozendict.hash.post.returns_stored_hash.path{i}', r.status, time=r.time, backend=r.backend, reason=r.reason)
+        if not outs: rep.error('C17.frozendict.__hash__: no returning path')
+    except Exception as e:
+        rep.error('C17.frozendict.__hash__: ' + traceback.format_exc()[-800:])
+
+FD_SRC = """
+import sys, itertools
+from beartype import BeartypeConf, FrozenDict
+bad = []
+pairs = [(int, str), (float, bytes), (str, int), (bool, complex)]
+for r in (2, 3):
+    for combo in itertools.combinations(pairs, r):
+        base = FrozenDict(dict(combo)); cbase = BeartypeConf(hint_overrides=base)
+        for perm in itertools.permutations(combo):
+            d = FrozenDict(dict(perm))
+            if d == base and hash(d) != hash(base): bad.append(f'FrozenDict{perm!r} == FrozenDict{combo!r} but their hashes differ')
+            c = BeartypeConf(hint_overrides=d)
+            if c == cbase and (c is not cbase or hash(c) != hash(cbase)): bad.append(f'BeartypeConf(hint_overrides={perm!r}) == BeartypeConf(hint_overrides={combo!r}) but same object: {c is cbase}, same hash: {hash(c) == hash(cbase)}')
+            if bad: break
+        if bad: break
+print(bad[:2]); sys.exit(1 if bad else 0)
+"""
+def _frozendict_replay():
+    import subprocess
+    from pyvc import REPO
+    env = dict(os.environ); env['PYTHONPATH'] = REPO
+    p = subprocess.run([sys.executable, '-c', FD_SRC], capture_output=True, text=True, timeout=120, env=env, cwd='/')
+    return dict(replay=dict(kind='C17', reproduced=p.returncode == 1, detail=p.stdout.strip()[-400:], tried=[]),
+                replay_script=(f"import subprocess\nenv = dict(os.environ); env['PYTHONPATH'] = {REPO!r}\np = subprocess.run([sys.executable, '-c', {FD_SRC!r}], env=env, cwd='/')\nsys.exit(p.returncode)\n") if p.returncode == 1 else None)
+
 def main(tier, seed):
     rep = report.Report('C17', tier, seed, 'proof', f'./check C17 --tier {tier}')
     try:
@@ -337,6 +421,8 @@ def main(tier, seed):
     except Exception: rep.error('C17 is_color_contract: ' + traceback.format_exc()[-1500:])
     try: copies(rep)
     except Exception: rep.error('C17 copies: ' + traceback.format_exc()[-1500:])
+    try: frozendict_contract(rep)
+    except Exception: rep.error('C17 frozendict_contract: ' + traceback.format_exc()[-1500:])
     files = ['beartype/_conf/confmain.py', 'beartype/_conf/conftest.py', 'beartype/_conf/_confoverrides.py', 'beartype/_conf/_confget.py']
     rep.functions = ['beartype/_conf/confmain.py:BeartypeConf.__new__', 'beartype/_conf/confmain.py:BeartypeConf.__eq__', 'beartype/_conf/confmain.py:BeartypeConf.__hash__',
                      'beartype/_conf/conftest.py:default_conf_kwargs (inlined)', 'beartype/_conf/conftest.py:die_if_conf_kwargs_invalid (inlined)', 'beartype/_conf/conftest.py:sanify_conf_kwargs (inlined)',
